@@ -71,6 +71,10 @@ pub fn sweep(ctx: &mut Ctx, tag: &str, title: &str, ops: OpMask, tx: &dyn Fn(&Di
         if ops.has(OpMask::WRITE) {
             coords.push((HardKind::WriteZero, i, 0));
         }
+        // transient faults: a retrying caller (write_all, read_exact) hides them, so the
+        // transaction normally still succeeds and must then have produced the golden result
+        coords.push((HardKind::ShortOnce, i, 0));
+        coords.push((HardKind::EintrOnce, i, 0));
     }
     if ops.has(OpMask::WRITE) {
         let mut caps: Vec<u64> = vec![0];
@@ -121,6 +125,8 @@ pub fn sweep(ctx: &mut Ctx, tag: &str, title: &str, ops: OpMask, tx: &dyn Fn(&Di
                         HardKind::ErrorFrom => "c13_error_from_fired",
                         HardKind::WriteZero => "c13_write_zero_fired",
                         HardKind::DiskFull => "c13_disk_full_fired",
+                        HardKind::ShortOnce => "c13_short_transfer_placed",
+                        HardKind::EintrOnce => "c13_eintr_placed",
                     });
                 }
                 if o.ok && fired {
